@@ -9,7 +9,7 @@ for D in "$@"; do
   cd $V && BOBOCEP_REPO=$W PYTHONPATH=$W:$V /venv/bin/python -c "
 from harness import core; import pkgutil, translate, tempfile, pathlib
 core.LEAN = pathlib.Path(tempfile.mkdtemp()); (core.LEAN/'BoboVerif'/'Gen').mkdir(parents=True)
-h,b = core.run_translators([m.name for m in pkgutil.iter_modules(translate.__path__) if m.name not in ('pyexpr','normalize')])
+h,b = core.run_translators([m.name for m in pkgutil.iter_modules(translate.__path__) if m.name not in ('pyexpr','normalize','renames')])
 print('\n'.join('   '+x[:230].replace(chr(10),' ') for x in b))"
 done
 (cd $W && git reset -q --hard)
